@@ -158,7 +158,7 @@ func TestDoubleSpendHistory(t *testing.T) {
 	rapid.Check(t, func(t *rapid.T) {
 		vstat.Eval()
 		e := &env{nextNonce: map[common.Address]uint64{}, committed: map[common.Hash]uint64{}}
-		e.s = chainsim.New(t, chainsim.Options{NumAccts: rapid.IntRange(2, 3).Draw(t, "naccts"), NumWallets: 2, AllRich: true, Contracts: true})
+		e.s = chainsim.New(t, chainsim.Options{NumAccts: rapid.IntRange(2, 3).Draw(t, "naccts"), NumWallets: 2, AllRich: true, Contracts: true, MultiSign: true})
 		defer func() { e.s.Close() }()
 		s := e.s
 		propose := func() *types.Block {
@@ -187,7 +187,7 @@ func TestDoubleSpendHistory(t *testing.T) {
 		nops := rapid.IntRange(4, 24).Draw(t, "nops")
 		for i := 0; i < nops; i++ {
 			op := rapid.SampledFrom([]string{"a2u", "transfer", "spend", "spend", "respend-pending", "respend-committed", "dup-ki-in-tx", "inject-two-spends", "inject-committed-spend",
-				"inject-tx-twice", "inject-replay-old", "inject-nonce-gap", "inject-reorder", "resubmit-committed", "failing-call", "failing-call", "inject-replay-failed", "resubmit-failed", "commit", "commit", "commit-foreign", "commit-foreign", "restart", "concurrent-respend"}).Draw(t, "op")
+				"inject-tx-twice", "inject-replay-old", "inject-nonce-gap", "inject-reorder", "resubmit-committed", "failing-call", "failing-call", "inject-replay-failed", "resubmit-failed", "multisign", "multisign", "commit", "commit", "commit-foreign", "commit-foreign", "restart", "concurrent-respend"}).Draw(t, "op")
 			switch op {
 			case "a2u":
 				if g := s.GenA2U(t); g != nil {
@@ -199,6 +199,15 @@ func TestDoubleSpendHistory(t *testing.T) {
 				if g := s.GenAccountTx(t, []string{"call-revert", "call-fwdrevert", "call-killrevert"}); g != nil {
 					err := s.W.Submit(g.Tx)
 					e.logf("%s %s => %v", op, g.Desc, err)
+				}
+			case "multisign":
+				// a validator-signed rotation of the upgrade signer set: it has a nonce of its own account and is replayed like the rest
+				if g := s.GenMultiSign(t); g != nil {
+					err := s.W.Submit(g.Tx)
+					e.logf("%s %s => %v", op, g.Desc, err)
+					if err == nil {
+						vstat.Label("multisign_admitted")
+					}
 				}
 			case "transfer":
 				if g := s.GenAccountTx(t, []string{"transfer"}); g != nil {
